@@ -3,6 +3,7 @@
 package c19
 
 import (
+	"sync/atomic"
 	"runtime"
 	"runtime/pprof"
 	"errors"
@@ -522,6 +523,12 @@ func urlCase(r *ev.Run, e *env, i int) {
 		wantFile := filepath.Join(e.dir, name)
 		esc := strings.NewReplacer("%", "%25", " ", "%20", "?", "%3F", "#", "%23", "é", "%C3%A9").Replace(wantFile)
 		raw := scheme + "://" + user + host + port + esc + query + frag
+		if g.P(1, 5) {
+			// no scheme at all: a relative path (the working directory is the sandbox) is a file URL too,
+			// so a query or fragment must still be refused
+			scheme, host, user, port = "", "", "", ""
+			raw = strings.NewReplacer("%", "%25", " ", "%20", "?", "%3F", "#", "%23", "é", "%C3%A9").Replace(name) + query + frag
+		}
 		dontCare := query == "?" || frag == "#" || port == ":" || host == "LOCALHOST" || user == "@"
 		allowed := user == "" && port == "" && query == "" && frag == "" && (host == "" || host == "localhost")
 		before := listFiles(e.dir)
@@ -671,6 +678,39 @@ func registryCases(r *ev.Run, e *env) {
 			case wellFormed && err != nil:
 				r.Violate(ev.Violation{Case: id, Class: "register-rejected", Msg: fmt.Sprintf("RegisterSink(%q): a well-formed new scheme was rejected: %v", name, err)})
 			}
+		}
+	}
+	// the same fresh scheme registered by several goroutines at once: the registry is guarded by a
+	// lock, so exactly one registration wins and the others find the scheme already registered
+	rounds := r.N(2000, 20000)
+	for k := 0; k < rounds; k++ {
+		id := fmt.Sprintf("c19/regsink-concurrent/%d", k)
+		if !r.Want(id) {
+			continue
+		}
+		name := fmt.Sprintf("vc%dx%d", k, os.Getpid())
+		const ng = 6
+		var ok atomic.Int32
+		start := make(chan struct{})
+		var wg sync.WaitGroup
+		for gi := 0; gi < ng; gi++ {
+			wg.Add(1)
+			go func() {
+				defer wg.Done()
+				<-start
+				if zap.RegisterSink(name, badFactory) == nil {
+					ok.Add(1)
+				}
+			}()
+		}
+		close(start)
+		wg.Wait()
+		r.Eval(1)
+		r.Distinct("regsink-conc|" + id)
+		r.Count("concurrent_registration_rounds", 1)
+		if n := ok.Load(); n != 1 {
+			r.Violate(ev.Violation{Case: id, Class: "register-accepted", Msg: fmt.Sprintf("%d goroutines registered the new scheme %q at the same time and %d registrations succeeded (want exactly 1: the later ones find it already registered)", ng, name, n)})
+			break
 		}
 	}
 	for i, nc := range []struct {
